@@ -823,27 +823,27 @@ package statedb
 // the part transaction taken at query time (the clone freezes the tree: later writes of the same
 // write transaction - or of a later one recycling the Txn object - are not seen by the result).
 //@ func (*partIndexTxn).all
-//@   property C01 C02 C04
+//@   property C01 C02 C03 C04
 //@   flag nosafety
 //@   requires r != nil && r.tx != nil
 //@   mustcall Clone@1 when @query-on-a-frozen-clone true
 //@ func (*partIndexTxn).list
-//@   property C01 C02 C04
+//@   property C01 C02 C03 C04
 //@   flag nosafety
 //@   requires r != nil && r.tx != nil
 //@   mustcall Clone@1 when @query-on-a-frozen-clone true
 //@ func (*partIndexTxn).lowerBound
-//@   property C01 C02 C04
+//@   property C01 C02 C03 C04
 //@   flag nosafety
 //@   requires r != nil && r.tx != nil
 //@   mustcall Clone@1 when @query-on-a-frozen-clone true
 //@ func (*partIndexTxn).lowerBoundNext
-//@   property C01 C02 C04
+//@   property C01 C02 C03 C04
 //@   flag nosafety
 //@   requires r != nil && r.tx != nil
 //@   mustcall Clone@1 when @query-on-a-frozen-clone true
 //@ func (*partIndexTxn).prefix
-//@   property C01 C02 C04
+//@   property C01 C02 C03 C04
 //@   flag nosafety
 //@   requires r != nil && r.tx != nil
 //@   mustcall Clone@1 when @query-on-a-frozen-clone true
@@ -1188,6 +1188,9 @@ package statedb
 //@   atcall yield@1 requires @only-keys-of-matching-secondary-length (!it.prefixSearch ==> secondaryLen == len(it.searchKey)) && (it.prefixSearch ==> secondaryLen >= len(it.searchKey))
 //@   mustcall yield@1 when @every-matching-key-not-seen-before-is-handed-on (it.prefixSearch ? secondaryLen >= len(it.searchKey) : secondaryLen == len(it.searchKey)) && !found
 //@   atcall yield@1 requires @hands-on-the-stored-key-and-object $0 == key && $1.revision == iobj.revision && $1.data == iobj.data
+//@   atcall yield@1 requires @never-an-object-already-handed-out-and-every-handed-out-object-is-remembered it.prefixSearch ==> !found && has(visited, primary)
+//@   flag dyncall.yield=pure
+//@   ensures @remembered-objects-stay-remembered forall k string :: old(has(visited, k)) ==> has(visited, k)
 //@ func (*nonUniqueLowerBoundPartIterator).All$1
 //@   property C04 C18
 //@   flag nosafety
@@ -1195,6 +1198,9 @@ package statedb
 //@   atcall yield@1 requires @only-keys-at-or-above-the-search-key !bytesLess(secondary, it.searchKey)
 //@   mustcall yield@1 when @every-key-at-or-above-not-seen-before-is-handed-on !bytesLess(secondary, it.searchKey) && !found
 //@   atcall yield@1 requires @hands-on-the-stored-key-and-object $0 == key && $1.revision == iobj.revision && $1.data == iobj.data
+//@   atcall yield@1 requires @never-an-object-already-handed-out-and-every-handed-out-object-is-remembered !found && has(visited, primary)
+//@   flag dyncall.yield=pure
+//@   ensures @remembered-objects-stay-remembered forall k string :: old(has(visited, k)) ==> has(visited, k)
 //@ func (*nonUniqueLowerBoundPartIterator).Next returns (k, o, ok)
 //@   property C04 C18
 //@   flag nosafety
